@@ -1,5 +1,6 @@
 """C03 - MAP queries return a maximiser of the exact posterior (DESIGN.md 5/C03)."""
 import itertools
+from fractions import Fraction
 
 import numpy as np
 
@@ -100,6 +101,12 @@ def scenarios(tier, seed):
                         out.append(dict(family=f"map/ve-mn/{mname}", kind="mn", budget_s=45, nodes=nodes, scopes=scopes, card=card, q=list(q), ev=ev2,
                                         engine="ve", order=[None, "explicit"][k % 2], states=C.STATE_STYLES[k % len(C.STATE_STYLES)],
                                         hashseed=k % 2))
+                        vcand = [x for x in nodes if x not in q and x not in ev2]
+                        if vcand and k % 6 == 0 and mname != "mdup":
+                            # virtual (soft) evidence on a Markov network: the likelihood multiplies the unnormalised joint
+                            out.append(dict(family=f"map/ve-mn-virtual/{mname}", kind="mn", budget_s=45, nodes=nodes, scopes=scopes, card=card, q=list(q), ev=ev2,
+                                            engine="ve", order=[None, "explicit"][k % 2], states=C.STATE_STYLES[k % len(C.STATE_STYLES)],
+                                            hashseed=k % 2, virt=vcand[0]))
     return out
 
 
@@ -212,10 +219,12 @@ def run(desc, M):
         score = lambda a: C.marginal(desc, jt, {**a, **desc["ev"]})  # noqa
         model, nm = C.build_bn(desc, M, tabs)
     else:
-        M.declare(mn_names(desc))
-        model, val, _ = build_mn(desc, M)
+        virt = desc.get("virt")
+        M.declare(mn_names(desc) + ([f"lam{i}" for i in range(card[virt])] if virt else []))
+        model, val0, _ = build_mn(desc, M)
         nm = {v: v for v in nodes}
-        virt = None
+        lam = [M.sym(f"lam{i}", lo=Fraction(1, 10), hi=1) for i in range(card[virt])] if virt else None
+        val = (lambda a: val0(a) * lam[a[virt]]) if virt else val0
         rest = [v for v in nodes]
         score = lambda a: sum((val({**b, **a, **desc["ev"]}) for b in C.assignments(desc, [v for v in nodes if v not in a and v not in desc["ev"]])), M.const(0))  # noqa
     pe = score({})
@@ -235,7 +244,7 @@ def run(desc, M):
         order = desc["order"]
         if order == "explicit":
             order = [nm[v] for v in nodes if v not in desc["q"] and v not in desc["ev"]][::-1]
-        if desc["kind"] == "mn":
+        if desc["kind"] == "mn" and not virt:
             res = eng.map_query(qvars, evidence=evidence, elimination_order=order, show_progress=False)
         else:
             res = eng.map_query(qvars, evidence=evidence, elimination_order=order, show_progress=False, **kw)
